@@ -256,6 +256,33 @@ func c12Case(r *core.Run, idx int, rng *rand.Rand) {
 	if idx < 4 {
 		r.Sample("answered", map[string]any{"class": class, "requested": q.Attrs, "returned": attrMultiset(msgAttrs(m))})
 	}
+	// a second query on the same provider, for the other user: nothing of the first answer may stick
+	second := other
+	if u == other {
+		second = e.W.UserByLogin(q.Subject)
+	}
+	if second == nil || subj != "known" {
+		return
+	}
+	q2 := conformantQuery(rng, d, second.Username)
+	q2.ID = "MKq2" + randHex(rng, 6)
+	q2.Attrs, q2.Destination = nil, ""
+	call2 := e.Do(env.Req{Method: "POST", Path: env.PathAttr, Body: q2.XML(rng), CT: "text/xml", Host: host})
+	if call2.Panic != "" || !call2.D.Success() {
+		r.Violate(core.Violation{Clause: "second_query_not_answered", Class: class, Reason: fmt.Sprintf("follow-up query for another user not answered (status %d) %s", call2.D.Status, call2.Panic), Workload: wl, Index: idx, Case: desc, Observed: call2.Describe()})
+		return
+	}
+	want2, got2 := map[string]bool{}, map[string]bool{}
+	for _, a := range refAttributes(second) {
+		want2[a.key()] = true
+	}
+	for _, a := range msgAttrs(call2.D.Msg) {
+		got2[a.key()] = true
+	}
+	if d := setDiff(want2, got2); d != "" || call2.D.Msg.NameID != second.Username {
+		r.Violate(core.Violation{Clause: "second_query_carries_foreign_data", Class: class, Reason: fmt.Sprintf("follow-up query for user %q: NameID %q, %s", second.Username, call2.D.Msg.NameID, d), Workload: wl, Index: idx, Case: desc, Observed: call2.Describe()})
+	}
+	r.Count("follow_up_queries_checked", 1)
 }
 
 func firstRefusal(issuerReg bool, dest, sig, subj string) string {
@@ -305,6 +332,7 @@ func init() {
 			r.Require("refused_issuer", 20)
 			r.Require("refused_destination", 20)
 			r.Require("signatures_verified", 50)
+			r.Require("follow_up_queries_checked", 50)
 			return []core.Workload{{Name: "attribute_queries", N: c.Pick(900, 9000), Fn: c12Case}}
 		},
 		After: func(c *Ctx) { verify.Py.Close() },
